@@ -51,10 +51,10 @@ class Dump:
                 cur = {'name': nm, 'meta': meta, 'pcs': [], 'eqs': [], 'wit': [], 'notes': [], 'facts': []}
             elif ln.startswith('PC '):
                 p = ln.split(' '); cur['pcs'].append((p[1], int(p[2]), int(p[3])))
-            elif ln.startswith('EQ ') or ln.startswith('NEQW '):
+            elif ln.startswith('EQ ') or ln.startswith('NEQW ') or ln.startswith('LE '):
                 p = ln.split(' ', 5)
-                rec = {'lhs': int(p[1]), 'rhs': int(p[2]), 'shl': float.fromhex(p[3]), 'shr': float.fromhex(p[4]), 'label': p[5] if len(p) > 5 else ''}
-                (cur['eqs'] if p[0] == 'EQ' else cur['wit']).append(rec)
+                rec = {'lhs': int(p[1]), 'rhs': int(p[2]), 'shl': float.fromhex(p[3]), 'shr': float.fromhex(p[4]), 'label': p[5] if len(p) > 5 else '', 'rel': 'le' if p[0] == 'LE' else 'eq'}
+                (cur['wit'] if p[0] == 'NEQW' else cur['eqs']).append(rec)
             elif ln.startswith('NOTE '):
                 cur['notes'].append(ln[5:])
             elif ln.startswith('FACT '):
@@ -171,7 +171,7 @@ def smt_text(d, case, eqs, extra_assert=None):
     if extra_assert:
         out.append(extra_assert)
     if eqs:
-        neg = ' '.join('(not (= n%d n%d))' % (e['lhs'], e['rhs']) for e in eqs)
+        neg = ' '.join(('(> n%d n%d)' if e.get('rel') == 'le' else '(not (= n%d n%d))') % (e['lhs'], e['rhs']) for e in eqs)
         out.append('(assert (or %s))' % neg if len(eqs) > 1 else '(assert %s)' % neg)
     out.append('(check-sat)')
     vs = d.vars_of(cone)
@@ -228,10 +228,14 @@ def pcs_hold(d, case, val):
     return True
 
 
-def differs(a, b):
+def differs(a, b, rel='eq'):
     if isinstance(a, float) or isinstance(b, float):
         sc = max(1.0, abs(float(a)), abs(float(b)))
+        if rel == 'le':
+            return float(a) - float(b) > 1e-9 * sc
         return abs(float(a) - float(b)) > 1e-9 * sc
+    if rel == 'le':
+        return a > b
     return a != b
 
 
@@ -267,9 +271,9 @@ def decide_case(d, case, workdir, timeout=60, rnd=None, split_timeout=None, max_
                 info['witness_ok'] = False
     pending = []
     for k, e in enumerate(case['eqs']):
-        if e['lhs'] == e['rhs']:
+        if e['lhs'] == e['rhs']:  # identical DAG node: holds for eq and le alike
             res.append({'label': e['label'], 'status': 'trivial', 'queries': 0, 'solver_s': 0.0}); continue
-        if val is not None and info['pcs_ok'] and differs(val[e['lhs']], val[e['rhs']]):
+        if val is not None and info['pcs_ok'] and differs(val[e['lhs']], val[e['rhs']], e.get('rel', 'eq')):
             res.append({'label': e['label'], 'status': 'cex', 'assign': {k2: float(v) for k2, v in shadow.items()}, 'how': 'exact evaluation at shadow point',
                         'lhs': float(val[e['lhs']]), 'rhs': float(val[e['rhs']]), 'queries': 0, 'solver_s': 0.0}); continue
         pending.append(e)
@@ -309,7 +313,7 @@ def decide_case(d, case, workdir, timeout=60, rnd=None, split_timeout=None, max_
         except ZeroDivisionError:
             return None
         for e in eqs:
-            if differs(vv[e['lhs']], vv[e['rhs']]):
+            if differs(vv[e['lhs']], vv[e['rhs']], e.get('rel', 'eq')):
                 bad.append((e, asg, float(vv[e['lhs']]), float(vv[e['rhs']])))
             else:
                 rest.append(e)
@@ -333,7 +337,7 @@ def decide_case(d, case, workdir, timeout=60, rnd=None, split_timeout=None, max_
             if not pcs_hold(d, case, vv):
                 continue
             found += 1
-            if differs(vv[e['lhs']], vv[e['rhs']]):
+            if differs(vv[e['lhs']], vv[e['rhs']], e.get('rel', 'eq')):
                 return ('cex', asg, float(vv[e['lhs']]), float(vv[e['rhs']]))
         return ('agree', found)
 
